@@ -123,15 +123,15 @@ def run_case(acc, subj, pname, lab, cmode, costname, w, fitmode):
             warnings.simplefilter("ignore")
             clf = subj.make(classes=classes, cost_matrix=cost, random_state=0)
             if fitmode == "fit":
-                clf.fit(X, y) if sw is None else clf.fit(X, y, sw)
+                clf.fit(X, y) if sw is None else clf.fit(X, y, sample_weight=sw)
             else:
                 h = len(X) // 2
                 if sw is None:
                     clf.partial_fit(X[:h], y[:h])
                     clf.partial_fit(X[h:], y[h:])
                 else:
-                    clf.partial_fit(X[:h], y[:h], sw[:h])
-                    clf.partial_fit(X[h:], y[h:], sw[h:])
+                    clf.partial_fit(X[:h], y[:h], sample_weight=sw[:h])
+                    clf.partial_fit(X[h:], y[h:], sample_weight=sw[h:])
         acc.transitions += 1
     except ValueError as e:
         if trivial and "No class label is known" in str(e):
